@@ -238,6 +238,8 @@ def r3(R, repo):
     def shape(e):
       if isinstance(e, ast.Tuple) and len(e.elts) == 2 and astu.src(e.elts[0]) == y and astu.src(e.elts[1]) == '%s.mutable_variables()' % root:
         return 'pair'
+      if isinstance(e, ast.Tuple) and len(e.elts) == 2 and astu.src(e.elts[0]) == y and astu.src(e.elts[1]) in ('%s.variables()' % root, '%s._variables' % root, 'variables'):
+        return 'all'
       return 'y' if astu.src(e) == y else 'other'
     bad = None
     for v in ABS:
@@ -251,6 +253,8 @@ def r3(R, repo):
         break
     if bad is None:
       R.ok(key, w)
+    elif 'all' in bad[1]:
+      R.fail(key, (w, tests[0].stmt), 'apply returns (y, %s.variables()): *every* collection is handed back, not only the ones selected by `mutable` (callers that merge the result into their state overwrite e.g. params)' % root)
     elif 'other' in bad[1]:
       R.unsure(key, w, 'return value of apply.wrapper not recognised')
     else:
